@@ -738,6 +738,12 @@ def deterministic_cases():
     out.append(("derived-name-taken/link/peer", "exp", base + [
         dict(lk, name="sa-sb-link"), {"op": "add_service", "name": "sa", "nstype": "L3VPN", "ifs": [], "kw": []},
         {"op": "add_service", "name": "sb", "nstype": "L3VPN", "ifs": [], "kw": []}, {"op": "peer", "svc": "h11", "other": "h12", "kw": []}]))
+    out.append(("derived-name-taken/link/add_port_mirror", "exp", base + [
+        {"op": "node_add_service", "parent": "h0", "name": "nsa", "nstype": "OVS", "kw": []},                    # h10
+        {"op": "ns_add_interface", "svc": "h10", "name": "nic1-p1", "itype": "TrunkPort", "kw": []},             # h11
+        {"op": "ns_add_interface", "svc": "h10", "name": "nic1-p2", "itype": "TrunkPort", "kw": []},             # h12 (h3 is p1 or p2: the store's order)
+        {"op": "add_service", "name": "s1", "nstype": "L2Bridge", "ifs": ["h11", "h12"], "kw": []},              # h13
+        {"op": "add_port_mirror", "name": "pm1", "to": "h3", "from_name": "nic2-p1", "from_vlan": None, "direction": "Both", "kw": []}]))
     # ... and the guarded direction: the name of an owned service (derived or given) for a topology-level service is refused
     out.append(("top-level-service-named-like-owned", "exp", named_pre() + [
         {"op": "add_switch", "name": "sw9", "site": "RENC", "nports": 1},
@@ -1013,11 +1019,71 @@ def retype_cases():
     ]
 
 
-def corpus_cases():
+RENAME_HOWS = ("rename", "set_property", "set_properties", "name=")
+RENAME_TARGETS = (
+    # tag, handle, new name, name of nic1 afterwards, name of n1 afterwards
+    ("port-to-fresh", "h3", "px", "nic1", "n1"),                 # the ServicePort / link names derived from the old name stay behind
+    ("port-to-name-of-sibling-port", "h3", "shnic-p1", "nic1", "n1"),   # legal (own service each); name-keyed Node.interfaces collapses
+    ("owner-node-to-fresh", "h0", "nx", "nic1", "nx"),
+    ("owner-component-to-fresh", "h2", "cx", "cx", "n1"),
+    ("sibling-component-to-name-of-owner", "h8", "nic1", "nic1", "n1"),   # two components of one name in n1 (rename is unguarded: known)
+)
+RENAME_ROUTES = ("disconnect", "remove_component", "remove_storage", "remove_node", "remove_service", "prune-component", "prune-node",
+                 "prune-port", "remove_link")
+
+
+def rename_then_remove_ops(tag, h, new, cname, nname, how, route):
+    """base_ops + a bridge over nic1-p1 (h3), shnic-p1 (h9) of n1 and nic2-p1 (h6) of n2; then ONE element of the connection's
+    naming chain (<owner node>-<port name> names the ServicePort and the link) gets a new name through `how`; then `route`
+    removes / disconnects; then one more creating call"""
+    ops = c09.base_ops("exp") + [{"op": "add_service", "name": "s1", "nstype": "L2Bridge", "ifs": ["h3", "h9", "h6"], "kw": []}]      # h10
+    if how == "rename":
+        ops.append({"op": "rename", "h": h, "name": new})
+    elif how == "name=":
+        ops.append({"op": "set_attr", "h": h, "attr": "name", "val": ["str", new]})
+    else:
+        second = {"h3": ["capacities", ["cap", {"bw": 25}]], "h0": ["capacities", ["cap", {"core": 2, "ram": 8}]]}.get(h, ["details", ["str", "d"]])
+        ops.append({"op": "set_props", "h": h, "single": how == "set_property", "kw": [["name", ["str", new]]] + ([] if how == "set_property" else [second])})
+    mark = lambda hh: {"op": "set_props", "h": hh, "kw": [["reservation_info", ["rinfo", "Failed"]]]}
+    rm = {"op": "remove_component", "parent": "h0", "name": cname}
+    ops += {"disconnect": [{"op": "disconnect", "svc": "h10", "if": "h3"}, rm],
+            "remove_component": [rm],
+            "remove_storage": [dict(rm, via="remove_storage")],
+            "remove_node": [{"op": "remove_node", "name": nname}],
+            "remove_service": [{"op": "remove_service", "name": "s1"}, rm],
+            "prune-component": [mark("h2"), {"op": "prune", "state": "Failed"}],
+            "prune-node": [mark("h0"), {"op": "prune", "state": "Failed"}],
+            "prune-port": [mark("h3"), {"op": "prune", "state": "Failed"}],
+            # (h3 is the first port the interface list shows - p1 or p2, the store's order: one of the two calls finds no such link)
+            "remove_link": [{"op": "remove_link", "name": "n1-nic1-p1-link"}, {"op": "remove_link", "name": "n1-nic1-p2-link"}, rm]}[route]
+    ops.append({"op": "add_service", "name": "after", "nstype": "L2Bridge", "ifs": ["h7"], "kw": []})
+    return ops
+
+
+def rename_then_remove_cases(thorough=False):
+    """A CONNECTED interface, its owner component, its owner node or a sibling component renamed (rename() / set_property('name') /
+    set_properties(name=) / `element.name = `), then every removal route.  Quick tier: every (target, route) pair with the four ways
+    of renaming rotating, and all four ways for the target that gives two components one name on the three routes that went wrong
+    before fix 4a83e34 (remove_component, remove_node, prune of the component); thorough: the full product."""
+    out, k = [], 0
+    for tag, h, new, cname, nname in RENAME_TARGETS:
+        for route in RENAME_ROUTES:
+            k += 1
+            for j, how in enumerate(RENAME_HOWS):
+                full = tag == "sibling-component-to-name-of-owner" and route in ("remove_component", "remove_node", "prune-component")
+                if not thorough and not full and j != k % len(RENAME_HOWS):
+                    continue
+                out.append(("renamed/%s/%s/%s" % (tag, how, route), "exp", rename_then_remove_ops(tag, h, new, cname, nname, how, route)))
+    return out
+
+
+def corpus_cases(oracle_only=True):
     out = []
     for fn in sorted(glob.glob(os.path.join(CORPUS, "*.json"))):
         with open(fn) as f:
             c = json.load(f)
+        if c.get("oracle_only") and not oracle_only:        # (the reason is the value of the field)
+            continue
         out.append((os.path.basename(fn), c["flavour"], c["ops"]))
     return out
 
@@ -1033,7 +1099,7 @@ def correspondence(ctx, res):
                     st["viewcalls"] = py_view_calls(sess.topo)
                 except Exception:       # a view that cannot even be built: the oracle's finding (C07:views:raise:...), nothing to compare here
                     res.count("view-calls-not-taken:view-raised")
-    for j, (name, fl, ops) in enumerate(corpus_cases() + deterministic_cases() + interleaved_cases()):
+    for j, (name, fl, ops) in enumerate(corpus_cases(oracle_only=False) + deterministic_cases() + interleaved_cases()):
         # every scripted history on both in-memory stores: here the odd ones on the disjoint store, in the oracle the even ones
         hs.append(c09.run_history(fl + ("+d" if j % 2 == 1 and "+" not in fl else ""), scripted(ops), on_step=grab))
     n = ctx.scale(20, 110)
@@ -1119,9 +1185,19 @@ def correspondence(ctx, res):
                                               "impl": w[1], "model": got})
     # set_property / set_properties with the keywords name / type (Model/TopoExt.lean, through the C07 driver only)
     rlines, rsteps = [], []
-    for name, fl, ops in retype_cases():
+    # ... and the renamed-then-removed family (every way of renaming the model can follow: not `element.name = `, which the harness
+    # sends no request for), alternating stores: the removal routes after a rename, call by call against the model
+    # (with two components of one name, which of them a by-name remove_component reaches is the store's neighbour order - a set of
+    # ids in the code, storage order in the model: those histories are the oracle's only; remove_node / prune of the node or the
+    # port do not go through the ambiguous name)
+    renamed = [c for c in rename_then_remove_cases(ctx.scale(False, True)) if "/name=/" not in c[0] and
+               (not c[0].startswith("renamed/sibling-component-to-name-of-owner/") or c[0].split("/")[3] in ("remove_node", "prune-node", "prune-port"))]
+    for j, (name, fl, ops) in enumerate(retype_cases() + renamed):
         rlines.append(json.dumps({"op": "reset"}))
         rsteps.append(None)
+        if name.startswith("renamed/"):
+            fl = fl + ("+d" if j % 2 else "")
+            res.count("renamed-corr:" + "/".join(name.split("/")[1:2] + name.split("/")[3:4]))
         for st in c09.run_history(fl, scripted(ops)):
             rlines.append(T.lean_line(st["line"]))
             rsteps.append((name, st))
@@ -1258,6 +1334,12 @@ def oracle(ctx, res, budget=None):
     for name, fl, ops in retype_cases():
         for f in backends(fl):
             run_and_check(f, ops, res, name, views_every=1)
+    # a connected interface / its owner component / its owner node / a sibling component renamed, then every removal route: on BOTH
+    # stores in both tiers (the removal routes find what to disconnect through names, name-keyed dictionaries and the graph)
+    for name, fl, ops in rename_then_remove_cases(ctx.scale(False, True) or budget is not None):
+        for f in (fl, fl + "+d"):
+            run_and_check(f, ops, res, name, views_every=ctx.scale(6, 1))
+            res.count("renamed-then-removed:" + "/".join(name.split("/")[1:2] + name.split("/")[3:4]))
     for name, fl, ops in interleaved_cases():
         for f in backends(fl):
             run_and_check(f, ops, res, name, views_every=ctx.scale(3, 1), elements_every=ctx.scale(2, 1))
